@@ -76,6 +76,12 @@ func programs(thorough bool) []gen.Program {
 				}
 			}
 		}
+		// pinned connection, business code that carries on after a failed local transaction
+		for _, a := range al {
+			for _, part := range [][]int{{1, 0}, {0, 0}, {1, 2}} {
+				out = append(out, gen.Program{Schema: s.ID, Steps: []gen.Step{{Stmt: a, Group: part[0]}, {Stmt: al[1], Group: part[1]}}, Pinned: true, ContinueOnError: true, Init: []int{0, 1, 2}})
+			}
+		}
 		// length 2: same local transaction, and two local transactions
 		for i, a := range al {
 			for j, b := range al {
@@ -428,6 +434,9 @@ func shape(p gen.Program) string {
 	out := strings.Join(g, "")
 	if p.Pinned {
 		out += "-pinned"
+	}
+	if p.ContinueOnError {
+		out += "-continue"
 	}
 	return out
 }
